@@ -87,7 +87,7 @@ def loop_paths(ctx, heap=None, collections=None, havoc_on_call=True, bind=None, 
     if inline is not None:
         def pol(call, callee, depth):  # noqa: F811
             return base_pol(call, callee, depth) or inline(call, callee, depth)
-    I = mk_interp(ctx, inline=pol, collections=collections or {}, havoc_on_call=havoc_on_call, integral={"self.time"}, max_depth=max_depth)
+    I = mk_interp(ctx, inline=pol, auto_helpers=False, collections=collections or {}, havoc_on_call=havoc_on_call, integral={"self.time"}, max_depth=max_depth)
     st = State()
     st.env["self"] = Obj("self", PROJECT)
     ft = ctx.types.ftypes(f)
